@@ -3,7 +3,8 @@
 #  mutdir holds patch.diff and demo_test.go.  Steps:
 #   1. in a scratch worktree of /repo (under /tmp, removed afterwards): patch applies, full suite passes with it,
 #      demo fails with it, demo passes without it;
-#   2. apply the patch to /repo's working tree, run ./check PROP, undo (git checkout -- .).
+#   2. run ./check PROP with VERIF_REPO pointing at that scratch worktree (the registered commands use /repo;
+#      the seeded-change protocol "apply to /repo, run, undo" is equivalent and can be used instead).
 # prints one line: CONFIRMED/REJECTED <why> ; DETECTED/MISSED
 set -u
 MUT=$(cd "$1" && pwd); PROP=$2; TIER=${3:-quick}
@@ -24,12 +25,11 @@ cp $MUT/demo_test.go zz_demo_test.go
 if go test -vet=off -count=1 -run TestDemo . >/tmp/mutcheck.$$.log 2>&1; then echo "REJECTED demo passes with the change"; rm -f /tmp/mutcheck.$$.log; exit 1; fi
 rm -f /tmp/mutcheck.$$.log
 echo "CONFIRMED"
+# run the property's check against the scratch worktree (which holds the change); /repo is not touched
+rm -f zz_demo_test.go
 cd /verif
-if [ -n "$(git -C /repo status --porcelain --untracked-files=no)" ]; then echo "/repo is dirty, not applying"; exit 2; fi
-git -C /repo apply $MUT/patch.diff || exit 2
-./check $PROP --tier $TIER > $LOG 2>&1
+VERIF_REPO=$W ./check $PROP --tier $TIER > $LOG 2>&1
 rc=$?
-git -C /repo checkout -- .
 if [ $rc -eq 1 ] && grep -q "^VIOLATION property=$PROP" $LOG; then echo "DETECTED by ./check $PROP --tier $TIER ($(grep -c '^VIOLATION' $LOG) violation lines)";
 elif [ $rc -eq 2 ]; then echo "BROKEN check (rc=2): $(grep BROKEN $LOG | head -1 | cut -c1-200)";
 else echo "MISSED by ./check $PROP --tier $TIER (rc=$rc, drift lines: $(grep -c '^MODEL-DRIFT' $LOG))"; fi
